@@ -536,3 +536,15 @@ package bgp
 //@ func ExtCommRouteTargetKey
 //@   pure
 //@   spec-only
+
+//@ props C08
+//@ func NewCapAddPath
+//@   modifies nothing
+//@   ensures result != nil && fresh(result) && result.Tuples == tuples
+//@ func NewCapMultiProtocol
+//@   modifies nothing
+//@   ensures result != nil && fresh(result) && result.CapValue == rf
+// logging helper: assumed free of side effects (not verified; listed in the evidence)
+//@ func (FSMState).String
+//@   pure
+//@   spec-only
